@@ -2,7 +2,7 @@
 R-TRACK, R-SLOTS, R-SENSE, R-CMP, R-SIGN, R-IFACE, R-ROWIDX, R-BARIDX, R-OBJSLOT, R-HEUR, R-LMIENC."""
 import ast
 from fractions import Fraction
-from ..model import (AnalysisError, src, loc, call_name, dotted, qualname, norm_stmt, params_of, is_const, get_arg)
+from ..model import (AnalysisError, src, loc, call_name, dotted, qualname, norm_stmt, params_of, is_const, get_arg, anon_src)
 from ..nf import Evaluator, Rat, Poly, ExprV, ConsV, PointV, Opaque, v_cmp, to_rat
 from .. import flow, effects
 from . import common
@@ -855,7 +855,7 @@ def r_baridx(ctx):
                 a = c.args[pos]
                 n += 1
                 ok, why = _bar_index_ok(fn, a)
-                ctx.ob("R-BARIDX", "MosekWrapper.%s::%s(%s)" % (fn.name, call_name(c), src(a)), ok, why, loc(fn, c))
+                ctx.ob("R-BARIDX", "MosekWrapper.%s::%s(%s)" % (fn.name, call_name(c), anon_src(a)), ok, why, loc(fn, c))
     ctx.count("bar-variable index sites", n)
     return n
 
@@ -909,7 +909,8 @@ def r_objslot(ctx):
         for node in ast.walk(fn):
             bad = None
             if isinstance(node, ast.Subscript) and isinstance(node.slice, ast.UnaryOp) and isinstance(node.slice.op, ast.USub) and is_const(node.slice.operand) \
-                    and isinstance(node.value, ast.Name) and node.value.id in ("xx",):
+                    and isinstance(node.value, ast.Name) and any(isinstance(d.value, ast.Call) and call_name(d.value) == "getxx"
+                                                                 for d in flow.stmts_of(fn, ast.Assign) if dotted(d.targets[0]) == node.value.id):
                 bad = "the objective value is read as `%s` (a position from the end of the variable vector)" % src(node)
             if isinstance(node, ast.Call) and call_name(node) == "putclist" and node.args and isinstance(node.args[0], ast.List):
                 for e in node.args[0].elts:
@@ -917,7 +918,7 @@ def r_objslot(ctx):
                         bad = "the objective coefficient is addressed as `%s` (position arithmetic on the class counter)" % src(e)
             if bad:
                 n += 1
-                what = src(node) if isinstance(node, ast.Subscript) else "putclist(%s)" % src(node.args[0])
+                what = ("getxx()[%s]" % src(node.slice)) if isinstance(node, ast.Subscript) else "putclist(%s)" % src(node.args[0])
                 ctx.ob("R-OBJSLOT", "MosekWrapper.%s::%s" % (fn.name, what), not later_leaf,
                        "no leaf expression can be created after the objective leaf" if not later_leaf else
                        bad + ", but leaf expressions are created after the objective leaf (%s): the slot is then another variable" % ", ".join(sorted(set(later_leaf))[:3]),
@@ -1043,9 +1044,24 @@ def r_lmienc(ctx):
         c = mats[0]
         rows, cols, val = src(c.args[1]), src(c.args[2]), c.args[3].elts[0]
         try:
-            diag = _fold(val, True)
-            off = _fold(val, False)
-            okm = diag == -1 and off == Fraction(-1, 2) and rows.replace(" ", "") == "[max(i,j)]" and cols.replace(" ", "") == "[min(i,j)]"
+            # the two entry indices are the variables of the two enclosing loops
+            ij = []
+            cur = common.stmt_of(c)
+            while True:
+                lp0 = flow.in_loop(cur)
+                if lp0 is None:
+                    break
+                if isinstance(lp0.target, ast.Name):
+                    ij.insert(0, lp0.target.id)
+                cur = lp0
+            if len(ij) != 2:
+                raise AnalysisError("the coupling matrix is not built inside two entry loops")
+            i_, j_ = ij
+            diag = _fold(val, True, (i_, j_))
+            off = _fold(val, False, (i_, j_))
+            rr, cc = rows.replace(" ", ""), cols.replace(" ", "")
+            okm = diag == -1 and off == Fraction(-1, 2) and rr in ("[max(%s,%s)]" % (i_, j_), "[max(%s,%s)]" % (j_, i_)) \
+                and cc in ("[min(%s,%s)]" % (i_, j_), "[min(%s,%s)]" % (j_, i_))
             msg = "entry (i, j) is coupled with -1 on the diagonal and -1/2 off the diagonal at (max, min)" if okm else \
                 "coupling coefficient is %s on the diagonal and %s off the diagonal at (%s, %s); a lower-triangular symmetric entry counts twice, so -1 / -1/2 at (max, min) is required" % (diag, off, rows, cols)
         except AnalysisError as e:
@@ -1057,14 +1073,14 @@ def r_lmienc(ctx):
            "one bar-variable is appended per LMI" if okb else "bar-variables appended %d times / in a loop" % len(av), loc(fn, fn))
 
 
-def _fold(e, diag):
+def _fold(e, diag, ij=("i", "j")):
     """Constant folding of the coupling coefficient with (i == j) = diag."""
     if isinstance(e, ast.Constant) and isinstance(e.value, (int, float)):
         return Fraction(repr(e.value)) if isinstance(e.value, float) else Fraction(e.value)
     if isinstance(e, ast.UnaryOp) and isinstance(e.op, ast.USub):
-        return -_fold(e.operand, diag)
+        return -_fold(e.operand, diag, ij)
     if isinstance(e, ast.BinOp):
-        a, b = _fold(e.left, diag), _fold(e.right, diag)
+        a, b = _fold(e.left, diag, ij), _fold(e.right, diag, ij)
         if isinstance(e.op, ast.Add):
             return a + b
         if isinstance(e.op, ast.Sub):
@@ -1073,14 +1089,14 @@ def _fold(e, diag):
             return a * b
         if isinstance(e.op, ast.Div):
             return a / b
-    if isinstance(e, ast.Compare) and len(e.ops) == 1 and {src(e.left), src(e.comparators[0])} == {"i", "j"}:
+    if isinstance(e, ast.Compare) and len(e.ops) == 1 and {src(e.left), src(e.comparators[0])} == set(ij):
         if isinstance(e.ops[0], ast.Eq):
             return Fraction(1 if diag else 0)
         if isinstance(e.ops[0], ast.NotEq):
             return Fraction(0 if diag else 1)
     if isinstance(e, ast.IfExp):
-        t = _fold(e.test, diag)
-        return _fold(e.body, diag) if t else _fold(e.orelse, diag)
+        t = _fold(e.test, diag, ij)
+        return _fold(e.body, diag, ij) if t else _fold(e.orelse, diag, ij)
     raise AnalysisError("coupling coefficient `%s` outside the analysed fragment" % src(e))
 
 
